@@ -96,6 +96,22 @@ class TableFilter:
         return bool((self.k >> ((7 * self.ad.lname(link) + code) % 64)) & 1)
 
 
+class VertexFilter:
+    """ff_result family: filter k accepts x iff bit (code(x) % 64) of k (code None = 0, Vi = i+1)"""
+
+    def __init__(self, ad, k):
+        self.ad, self.k = ad, k
+        self.count = 0
+        self.fault_at = None
+
+    def __call__(self, x):
+        self.count += 1
+        if self.fault_at is not None and self.count == self.fault_at:
+            raise Fault()
+        code = 0 if x is None else self.ad.vname(x) + 1
+        return bool((self.k >> (code % 64)) & 1)
+
+
 class Real:
     def __init__(self):
         self.reset()
@@ -112,6 +128,7 @@ class Real:
         self._wid = {}
         self.filters2 = {}
         self.filters1 = {}
+        self.vfilters = {}
         return "ok"
 
     def vname(self, v):
@@ -152,6 +169,13 @@ class Real:
         if k not in self.filters1:
             self.filters1[k] = TableFilter(self, k, 1)
         return self.filters1[k]
+
+    def vfilt(self, k):
+        if k is None:
+            return None
+        if k not in self.vfilters:
+            self.vfilters[k] = VertexFilter(self, k)
+        return self.vfilters[k]
 
     # ---------------------------------------------------------------- parsing
     def pv(self, tok):
@@ -361,4 +385,39 @@ class Real:
                     f.fault_at = None
             assert isinstance(r, set)
             return "ok [" + ",".join("L%d" % i for i in sorted(self.lname(l) for l in r)) + "]"
+        if op in ("bft", "dftr", "dfti"):
+            uni, start = self.pv(toks[1]), self.pv(toks[2])
+            d, u = int(toks[3]), int(toks[4])
+            via, res = self.filt2(self.pnat(toks[5])), self.vfilt(self.pnat(toks[6]))
+            for f in (via, res):
+                if f is not None:
+                    f.count, f.fault_at = 0, None
+            kw = dict(direction_sensitive=d, unknown_handling=u, ff_via=via, ff_result=res)
+            if toks[7] == "gen":
+                fn = {"bft": breadthfirst.ibft, "dftr": depthfirst.idft_recursive,
+                      "dfti": depthfirst.idft_iterative}[op]
+                out = []
+                try:
+                    it = fn(uni, start, **kw)
+                    while True:
+                        try:
+                            out.append(next(it))
+                        except StopIteration:
+                            break
+                except Exception as exc:  # noqa: BLE001
+                    return "gen [" + ",".join(self.sv(x) for x in out) + "] err " + errname(exc)
+                return "gen [" + ",".join(self.sv(x) for x in out) + "] end"
+            fn = {"bft": breadthfirst.bft, "dftr": depthfirst.dft_recursive,
+                  "dfti": depthfirst.dft_iterative}[op]
+            r = fn(uni, start, **kw)
+            assert isinstance(r, list)
+            return "ok [" + ",".join(self.sv(x) for x in r) + "]"
+        if op in ("bfs", "dfsr", "dfsi"):
+            uni, start = self.pv(toks[1]), self.pv(toks[2])
+            attr = "a" + toks[3]
+            val = VALREPS[int(toks[4])][0]
+            fn = {"bfs": breadthfirst.bfs, "dfsr": depthfirst.dfs_recursive,
+                  "dfsi": depthfirst.dfs_iterative}[op]
+            r = fn(uni, start, attr, val)
+            return "ok " + self.sv(r)
         return "bad-op " + " ".join(toks)
